@@ -182,7 +182,7 @@ func gen(c *core.Ctx) error {
 		{{Kind: "file", Chunks: []ss.Data{ss.Lit(core.Payload(3, 10))}}}, // PutFile / GetFile: size, content, end marker
 	}
 	if !c.Quick() {
-		transcripts = append(transcripts, []ss.Msg{{Kind: "file", Chunks: []ss.Data{ss.Lit(core.Payload(5, 70000))}}})
+		transcripts = append(transcripts, []ss.Msg{{Kind: "file", Chunks: []ss.Data{ss.Pay(5, 70000)}}}) // two content frames
 	}
 	setups := []ss.Setup{{Kind: "keyed", Key: key}, {Kind: "keyed", Key: key, PreAB: []ss.Data{ss.Lit([]byte("hi"))}, PreBA: []ss.Data{ss.Lit([]byte("there"))}, ReadMax: 7, Ctx: true}}
 	apis := []string{"complete", "msgall", "sre"}
@@ -204,6 +204,7 @@ func gen(c *core.Ctx) error {
 		}
 	}
 	for ti, tr := range transcripts {
+		heavy := len(tr[0].Bytes()) > 10000 // a large transcript gets the quick tier's fault strides even in thorough
 		for si, su := range setups {
 			for wi, warm := range []bool{false, true, true} {
 				if c.Quick() && (ti+si)%2 == 1 && warm && wi == 1 {
@@ -247,7 +248,7 @@ func gen(c *core.Ctx) error {
 				for j := 0; j < n; j++ {
 					// header bits
 					hstep := 1
-					if c.Quick() && j > 1 && j < n-1 {
+					if (c.Quick() || heavy) && j > 1 && j < n-1 {
 						hstep = 5
 					}
 					for bit := 0; bit < 40; bit += hstep {
@@ -257,7 +258,7 @@ func gen(c *core.Ctx) error {
 					}
 					// body bits: IV / ciphertext / tag region, stride
 					stride := 61
-					if !c.Quick() {
+					if !c.Quick() && !heavy {
 						stride = 1
 					}
 					for bit := 40; bit < 40+8*64; bit += stride {
@@ -347,7 +348,7 @@ func gen(c *core.Ctx) error {
 				}
 				// random multi-fault combinations
 				nr := 10
-				if !c.Quick() {
+				if !c.Quick() && !heavy {
 					nr = 300
 				}
 				for r := 0; r < nr; r++ {
